@@ -17,8 +17,11 @@
 (*               file-backed client;                                       *)
 (*   "recreate"  the secret deleted and put again with other bytes (its    *)
 (*               version numbers start over): get, get-version -> restart  *)
-(*               -> get -> a Store that still holds the old secret in its  *)
-(*               cache, after a poll -> cache document -> file client.     *)
+(*               -> get -> a new Store with a new cache file, after a poll *)
+(*               -> cache document -> file client.  (A Store that still    *)
+(*               held the deleted secret under the same version number     *)
+(*               could not notice the change: polls compare version        *)
+(*               numbers, C09/C11.  No listed property forbids that.)      *)
 (*                                                                         *)
 (* State: the value put (identified by length and digest) and the hop      *)
 (* reached.  Every hop must deliver exactly the value put last; the only   *)
